@@ -50,3 +50,24 @@ theorem fire_twice_cancels (acc v : List Bool) (h : acc.length = v.length) : xor
 example : errorVec (3, 1) [.det 1, .det 1, .obs 0] = [false, false, false, true] := by decide
 
 end Stim.C16
+
+namespace Stim.C16
+open Stim
+
+theorem xorV_swap (acc a b : List Bool) : xorV (xorV acc a) b = xorV (xorV acc b) a := by
+  rw [xorV_assoc, xorV_assoc, xorV_comm a b]
+
+/-- **The order in which the fired errors are accumulated is irrelevant**: any permutation of the fired errors' symptom vectors
+    XORs to the same detector/observable vector. -/
+theorem fire_order_irrelevant (l1 l2 : List (List Bool)) (h : l1.Perm l2) :
+    ∀ acc : List Bool, l1.foldl xorV acc = l2.foldl xorV acc := by
+  induction h with
+  | nil => intro acc; rfl
+  | cons x _ ih => intro acc; simp only [List.foldl_cons]; exact ih _
+  | swap x y l => intro acc; simp only [List.foldl_cons]; rw [xorV_swap]
+  | trans _ _ ih1 ih2 => intro acc; rw [ih1, ih2]
+
+example : [[true, false], [false, true], [true, true]].foldl xorV [false, false] = [[true, true], [true, false], [false, true]].foldl xorV [false, false] :=
+  fire_order_irrelevant _ _ (by decide) _
+
+end Stim.C16
